@@ -779,6 +779,9 @@ func runScenario(f failer, sc *scenario) *outcome {
 						ctxt(i), P, out.useErr, inK[P], m.accepted(P))
 				}
 				oc.nontrivial = true
+				if r.KnowMode == "keep" {
+					lab("lazy-refused:knowledge-from-identify-or-earlier-opens")
+				}
 				if m.ever[P] {
 					lab("lazy-refused:stale")
 				} else {
@@ -816,6 +819,9 @@ func runScenario(f failer, sc *scenario) *outcome {
 			if ar.kind != "exact" {
 				oc.nontrivial = true
 				lab("answered-by-matcher:" + ar.kind)
+				if out.lazy {
+					lab("lazy-accepted-by-matcher")
+				}
 			} else {
 				lab("answered-by-exact")
 			}
@@ -925,7 +931,7 @@ func sortedLabels(m map[string]bool, extra ...string) []string {
 // TestNegotiation is the generated check described in the package comment.
 func TestNegotiation(t *testing.T) {
 	name := t.Name()
-	hx.Check(t, 12000, 600000, 0, func(rt *rapid.T) {
+	hx.Check(t, 12000, 400000, 0, func(rt *rapid.T) {
 		sc := drawScenario(rt)
 		var oc *outcome
 		hx.Bubble(t, rt, func() {
